@@ -831,7 +831,10 @@ class Interp:
         if c is not None and not force_body:
             self.call_log.append(fi.qualname)
             bound = self.bind(fi.node, args, kwargs, Frame(fi.module))
-            return c.apply(self, bound)
+            r = c.apply(self, bound)
+            if fi.is_memoised:
+                r = self.domain.memo_result(self, fi, r, bound)
+            return r
         if not force_body and not self.domain.may_inline(self, fi):
             raise Unsupported("call to %s: no contract and not inlinable" % fi.qualname)
         return self.run_body(fi, args, kwargs)
